@@ -62,10 +62,17 @@ def gen_schedules(chk, n: int, k: int, simulate: int | None, seed: int) -> list[
 
 
 # ---- executed in forked children --------------------------------------------------------------
+# the base configuration plus a file-placement rule that reports the first two files (a rule that names files by their
+# path inside the project)
+C07_CONFIG = projects.BASE_CONFIG + "file-placement:\n  global_deny:\n    - pattern: \".*(f01_|f02_|m01/|m02/).*\"\n      reason: \"probe\"\n"
+
+
 def _vbag(vs, root):
     out = []
     for v in vs:
         d = drive.viol_dict(v)
+        # every field counts: whether the path is reported absolute or project-relative is kept next to the normalised path
+        d["path_is_absolute"] = os.path.isabs(d["file_path"])
         d["file_path"] = drive.rel(d["file_path"], root)
         d["message"] = d["message"].replace(str(root) + "/", "")
         if d.get("suggestion"):
@@ -97,7 +104,7 @@ def job_api(job: dict) -> dict:
     root.mkdir(parents=True, exist_ok=True)
     files = projects.build(job["n"], job["cross"], job.get("layout", "flat"))
     drive.write_tree(root, dict(files))
-    (root / ".thailint.yaml").write_text(projects.BASE_CONFIG)
+    (root / ".thailint.yaml").write_text(C07_CONFIG)
     os.chdir(root)
     paths = [root / rel for rel, _ in files]
     trace = str(root.parent / (root.name + ".h2"))
@@ -136,11 +143,11 @@ def job_cli(job: dict) -> dict:
     if job.get("explicit_config"):
         # the settings arrive through --config <file outside the discovered locations>; the project's own file says
         # something else (the --config file must win in both modes, in the parent and in every worker)
-        (root / ".thailint.yaml").write_text(projects.BASE_CONFIG + "nesting:\n  max_nesting_depth: 9\n")
+        (root / ".thailint.yaml").write_text(C07_CONFIG + "nesting:\n  max_nesting_depth: 9\n")
         (root.parent / "alt.yaml").write_text(projects.ALT_CONFIG)
         extra = ["--config", str(root.parent / "alt.yaml")]
     else:
-        (root / ".thailint.yaml").write_text(projects.BASE_CONFIG)
+        (root / ".thailint.yaml").write_text(C07_CONFIG)
     rels = [rel for rel, _ in files]
     if job["target"] == "dir":
         targets = ["."]
